@@ -37,7 +37,7 @@ func init() {
 			"flow-control bound asserted: buffered + len <= writeMax + writeMax/2 (a waiting writer may be released by one stale wake-up token; see NOTES_c16.md for the derivation)",
 		},
 		Stages: []Stage{
-			{Name: "stream", Pkg: "./pkg/dtls", Run: "^TestVerifC16(Stream|Flow|Heartbeat|Creds|Handshake)", Drivers: []string{"dtls"}, TimeoutQ: 10 * time.Minute, TimeoutT: 40 * time.Minute},
+			{Name: "stream", Pkg: "./pkg/dtls", Run: "^TestVerifC16(Deadline|Stream|Flow|Heartbeat|Creds|Handshake)", Drivers: []string{"dtls"}, TimeoutQ: 10 * time.Minute, TimeoutT: 40 * time.Minute},
 			{Name: "listener-race", Pkg: "./pkg/dtls", Run: "^TestVerifC16Listener", Drivers: []string{"dtls"}, Race: true, RaceFilter: inDTLS, TimeoutQ: 10 * time.Minute, TimeoutT: 40 * time.Minute},
 			{Name: "real", Pkg: "./pkg/dtls", Run: "^TestVerifC16Real", Drivers: []string{"dtls"}, ThoroughOnly: true, TimeoutT: 40 * time.Minute},
 		},
